@@ -7,7 +7,7 @@ use serde::{Deserialize, Serialize};
 /// An error value to record. Leaf ids are unique within a scenario.
 #[derive(Clone, Debug, Serialize, Deserialize, PartialEq)]
 pub enum ErrSpec {
-    /// `Error::custom("F<id>")`
+    /// the leaf of kind `interp::leaf(id)` (mostly `Error::custom("F<id>")`)
     Single(u32),
     /// `Error::custom("F<id>").at(seg)`
     Located(u32, String),
@@ -53,10 +53,11 @@ fn render(id: u32, prefix: &[String], seg: Option<&String>) -> String {
     if let Some(s) = seg {
         path.push(s);
     }
+    let msg = crate::interp::leaf_text(id);
     if path.is_empty() {
-        format!("F{}", id)
+        msg
     } else {
-        format!("F{} at {}", id, path.join("/"))
+        format!("{} at {}", msg, path.join("/"))
     }
 }
 
